@@ -38,8 +38,9 @@ LEVEL_TEXT = ('static analysis: (D1) every public estimator of cnvlib/descriptiv
               '[wing:-wing] slices). The typing of D4 also carries a rounding taint -- a value that went through a data-dependent division may '
               'not enter an equality-within-epsilon test (exact ties of equal weights would be missed) -- and rejects np.isclose on location-type'
               ' or scale-dependent values. The constant evaluator of D5 / D6 has 2-D arrays (a[:, None] - a, np.triu, mask selection), so '
-              "vectorised pairwise forms are decided as well. Does not decide numerical values on general data beyond those vectors, Qn's factor "
-              'for n >= 400, finiteness of weighted smoother outputs.')
+              'vectorised pairwise forms are decided as well. D6 includes a tied majority with neighbours a few thousandths away (between the '
+              'absolute floor and c times it); D3b takes the half-window from check_inputs, whatever helpers compute it. Does not decide '
+              "numerical values on general data beyond those vectors, Qn's factor for n >= 400, finiteness of weighted smoother outputs.")
 TECHNIQUE = ('decorator-contract and tolerance lints; structured-dominance pad/unpad pairing; abstract interpretation with a translation/scale '
              'type domain and a uniform-vector domain; exact rational evaluation on literal vectors against independent formula transcriptions; '
              "library-precondition contracts for scipy's savgol")
